@@ -51,8 +51,9 @@ type Event struct {
 	S int `json:"s"`
 	// ID is the stream identifier (cancel: 0 cancels the pending accept).
 	ID int `json:"id,omitempty"`
-	// N is the byte count of write / read, or the deadline kind of rdl / wdl
-	// (0 = clear, 1 = one second in the past, 2 = one second in the future).
+	// N is the byte count of write / read, the deadline kind of rdl / wdl
+	// (0 = clear, 1 = one second in the past, 2 = one second in the future), or
+	// the virtual milliseconds of sleep (0 = 2 s).
 	N int `json:"n,omitempty"`
 }
 
@@ -75,6 +76,9 @@ func (e Event) String() string {
 	case "rdl", "wdl":
 		return fmt.Sprintf("%s%d.%s(%s)", s, e.ID, e.K, [3]string{"clear", "past", "+1s"}[e.N%3])
 	case "sleep":
+		if e.N > 0 {
+			return fmt.Sprintf("sleep(%dms)", e.N)
+		}
 		return "sleep(2s)"
 	case "deliver":
 		return fmt.Sprintf("%s>%s", s, sideName[1-e.S&1])
@@ -123,6 +127,13 @@ type Config struct {
 	// AfterClose also offers reads / writes on a stream after its local close
 	// and reads after end-of-stream was seen.
 	AfterClose bool `json:"after_close"`
+	// HeartbeatMs / HeartbeatLimitMs are Configuration.HeartbeatTransmitInterval
+	// and MaximumHeartbeatReceiveInterval in (virtual) milliseconds on both
+	// sides; 0 disables them.
+	HeartbeatMs      int `json:"heartbeat_ms,omitempty"`
+	HeartbeatLimitMs int `json:"heartbeat_limit_ms,omitempty"`
+	// WriteSizesBySide, when non-nil for a side, replaces WriteSizes for it.
+	WriteSizesBySide [2][]int `json:"write_sizes_by_side,omitempty"`
 	// Preamble is executed before the explored suffix (not counted in Depth).
 	Preamble []Event `json:"preamble"`
 	Depth    int     `json:"depth"`
@@ -492,9 +503,10 @@ func newWorld(cfg *Config) *world {
 			StreamReceiveWindow: cfg.W,
 			WriteBufferCount:    cfg.WriteBuffers,
 			AcceptBacklog:       cfg.Backlog,
-			// Heartbeats disabled: no timers other than the deadlines set by events.
-			HeartbeatTransmitInterval:       0,
-			MaximumHeartbeatReceiveInterval: 0,
+			// Heartbeats are disabled unless the configuration asks for them:
+			// then no timers exist other than the deadlines set by events.
+			HeartbeatTransmitInterval:       time.Duration(cfg.HeartbeatMs) * time.Millisecond,
+			MaximumHeartbeatReceiveInterval: time.Duration(cfg.HeartbeatLimitMs) * time.Millisecond,
 		})
 	}
 	return w
@@ -625,7 +637,11 @@ func (w *world) do(ev Event, step int) bool {
 			}
 		}
 	case "sleep":
-		time.Sleep(2 * time.Second)
+		d := 2 * time.Second
+		if ev.N > 0 {
+			d = time.Duration(ev.N) * time.Millisecond
+		}
+		time.Sleep(d)
 	case "deliver":
 		return w.wires[s].deliver(false)
 	case "deliverByte":
@@ -973,6 +989,12 @@ func (w *world) invariants(step int) {
 				// be blocked is that the peer's receive window for THIS stream
 				// cannot take the data, i.e. unread bytes would exceed it.
 				w.violate("C25", cls("write-stalled-with-window", s), fmt.Sprintf("%s is blocked although nothing is in flight and the peer's window has room: %d reported + %d offered - %d read by peer <= window %d", c, me.confirmed, len(c.data), peer.read, w.cfg.W), step)
+				// C23 "deliver bytes reliably ... without loss": the same state
+				// means bytes handed to Write can never reach a peer that has
+				// consumed everything before (e.g. receive-window credit that
+				// was lost on the way), in particular on the still-open
+				// direction of a half-closed stream.
+				w.violate("C23", cls("write-stalled-with-window", s), fmt.Sprintf("%s can never deliver its bytes: it is blocked although nothing is in flight and the peer has read %d of the %d bytes reported written (window %d)", c, peer.read, me.confirmed, w.cfg.W), step)
 			}
 		}
 	}
@@ -1076,7 +1098,11 @@ func (w *world) menu() []Event {
 			}
 			live := !sm.cCalled || cfg.AfterClose
 			if cfg.Writers[s] && sm.writeCall == nil && live && (!sm.cwCalled || cfg.AfterClose) {
-				for _, n := range cfg.WriteSizes {
+				sizes := cfg.WriteSizes
+				if cfg.WriteSizesBySide[s] != nil {
+					sizes = cfg.WriteSizesBySide[s]
+				}
+				for _, n := range sizes {
 					if sm.confirmed+n <= cfg.MaxBytes {
 						m = append(m, Event{K: "write", S: s, ID: id, N: n})
 					}
